@@ -48,7 +48,7 @@ func reg(id string, c *propCfg) {
 		c.Level = "exploration"
 	}
 	if c.QuickTimeout == 0 {
-		c.QuickTimeout = 8 * time.Minute
+		c.QuickTimeout = 15 * time.Minute
 	}
 	if c.ThoroughTimeout == 0 {
 		c.ThoroughTimeout = 40 * time.Minute
@@ -61,7 +61,7 @@ func init() {
 	reg("C02", &propCfg{Test: "TestC02", Quick: 2000, Thorough: 40000})
 	reg("C03", &propCfg{Test: "TestC03", Quick: 960, Thorough: 12000})
 	reg("C04", &propCfg{Test: "TestC04", Quick: 2000, Thorough: 40000})
-	reg("C05", &propCfg{Test: "TestC05", Quick: 240, Thorough: 3600, Level: "fault_enumeration",
+	reg("C05", &propCfg{Test: "TestC05", Quick: 200, Thorough: 3200, Level: "fault_enumeration",
 		Assumptions: []string{"crash model: un-synced writes reach the disk as any subset of 4096-byte blocks, file length anywhere between the synced length and the highest applied block, directory operations ordered and durable; with NoSync process-kill only"}})
 	reg("C06", &propCfg{Test: "TestC06", Quick: 320, Thorough: 1000, Level: "fault_enumeration"})
 	reg("C07", &propCfg{Test: "TestC07", Quick: 1500, Thorough: 24000})
@@ -76,7 +76,7 @@ func init() {
 	reg("C16", &propCfg{Test: "TestC16", Quick: 2400, Thorough: 24000, StallIsViolation: true})
 	reg("C17", &propCfg{Test: "TestC17", Quick: 480, Thorough: 6000, Race: true})
 	reg("C18", &propCfg{Test: "TestC18", Quick: 2000, Thorough: 30000})
-	reg("C19", &propCfg{Test: "TestC19", Quick: 1500, Thorough: 20000, Fuzz: "FuzzC19", FuzzTime: 120 * time.Second})
+	reg("C19", &propCfg{Test: "TestC19", Quick: 800, Thorough: 12000, Fuzz: "FuzzC19", FuzzTime: 120 * time.Second})
 	reg("C20", &propCfg{Test: "TestC20", Quick: 5000, Thorough: 80000})
 }
 
